@@ -68,3 +68,33 @@ def check(rep, rule, instance, f, w, extra_leave=None):
         return False
     return rep.must_pass(rule, instance, f, [w], writes, reload_, edge_ok=eok, to_exit=True,
                          what="after the futex wait returns (0, spurious, EINTR) the wait word is re-read before the function returns or writes the word (EAGAIN edge excepted)")
+
+
+def check_wakers(rep, rule, tag, mod, word_pred, floor=1):
+    """T2 over every waker of the futex words selected by word_pred(last field / global name): in each function (per-function
+    view) that issues FUTEX_WAKE on such a word, the word is reset to 0 before the wake-up and the wake-up is guarded by the word
+    being -1.  A waiter woken before the reset re-reads -1, takes the wake-up for a spurious one and sleeps again, after which the
+    word is 0 and nobody ever wakes it."""
+    from . import ir as _ir
+    n = 0
+    for g in mod.defined():
+        for w in wake_sites(g):
+            ap = word_of(w)
+            if ap is None:
+                continue
+            name = pat.last_field(ap) or pat.base_global(ap) or "?"
+            if not word_pred(name, ap):
+                continue
+            n += 1
+            rep.touch(g)
+            z = [s for s in g.all_insts() if s.op == "store" and same_word(g, ap, mm.effect_of(s)) and _ir.const_of(g, s.args[0]) == 0]
+            inst = "%s.%s.%s" % (tag, g.name, name.split(".")[-1])
+            if not z:
+                rep.bad(rule, inst + ".reset≺wake", "%s wakes waiters of %s without resetting the word to 0" % (g.name, name), [w.where()])
+            else:
+                rep.must_pass(rule, inst + ".reset≺wake", g, [g.entry()], [w], lambda i: i in z, include_start=True,
+                              what="the futex word is reset to 0 before FUTEX_WAKE (a waiter woken first re-reads -1, treats the wake-up as spurious and sleeps again for good)")
+            lv = pat.dom_leaf_atoms(g, w)
+            guard = any(a[0] == "eq" and a[2] == ("c", -1) and a[1][0] == "load" for a in lv)
+            rep.check(guard, rule, inst + ".guard", "wake-up only when the word is -1", "wake-up not guarded by word == -1", [w.where()])
+    pat.require(n >= floor, "%s: only %d FUTEX_WAKE sites matched (expected >= %d)" % (tag, n, floor))
